@@ -1,16 +1,16 @@
 SPECIFICATION Spec
 CONSTANTS
   Alphabet = {"a", "blogspot", "com", "co", "uk"}
-  MaxLabels = 5
+  MaxLabels = 6
   IcannSuffix <- McIcann
   PrivateSuffix <- McPrivate
   ListIds = {"sb"}
   ListNames <- McListNames
-  MaxList = 2
+  MaxList = 1
   Hosts <- Names
-  QTypes = {"A", "AAAA", "HTTPS", "TXT", "MX"}
+  QTypes = {"A", "HTTPS", "TXT"}
   PrefixStrs <- McPrefixStrs
-  MaxStrs = 2
+  MaxStrs = 3
   H <- McH
   Variant = "ok"
   KeepHist = FALSE
